@@ -3,7 +3,8 @@
    doc_bound = the documented zero-based meaning of a sub-volume argument
    (None = outside the documented range), see C03_Proofs.v. *)
 From Coq Require Import String ZArith List Bool QArith.
-From HD Require Import Base.Val Base.PySlice C03_Model C03_Proofs C03_Proofs_Geom C03_Proofs_Stack.
+From HD Require Import Base.Val Base.PySlice C03_Model C03_Proofs C03_Proofs_Geom C03_Proofs_Stack C03_Proofs_Sub
+  C03_Proofs_Infer C03_Proofs_Strict.
 From HD Require Base.Lin3.
 Import ListNotations.
 Open Scope Z_scope.
@@ -435,3 +436,163 @@ Proof.
   eexists; vm_compute; reflexivity.
 Qed.
 Print Assumptions C03_roundtrip_example.
+
+(* ---- pyramids from several source images and / or several pixel arrays ------- *)
+(* several sources: every level records exactly the size, spacing and origin of its
+   source image; one source with several masks: every level has the source's origin
+   and rows * spacing = rows_0 * spacing_0 (same for columns) *)
+Theorem C03_pyramid_multi : forall srcs pix ls, pyramid_multi srcs pix = Ok ls ->
+  srcs <> [] /\ pix <> [] /\
+  ((2 <= length srcs)%nat -> ls = srcs /\ (length pix = 1%nat \/ length pix = length srcs)) /\
+  (forall R C spr spc org, srcs = [(R, C, spr, spc, org)] ->
+     length ls = length pix /\ hd (R, C) pix = (R, C) /\
+     forall l, In l ls ->
+       let '(Rl, Cl, a, b, o) := l in
+       o = org /\ In (Rl, Cl) pix /\
+       ((1 <= Rl)%Z -> (1 <= Cl)%Z ->
+        inject_Z Rl * a == inject_Z R * spr /\ inject_Z Cl * b == inject_Z C * spc)).
+Proof. exact pyramid_multi_ok. Qed.
+Print Assumptions C03_pyramid_multi.
+
+Example C03_pyramid_multi_example :
+  (exists ls, pyramid_multi [(12, 16, 1 # 2, 1 # 4, V3 10 20 0)%Z] [(12, 16); (6, 8); (5, 3)]%Z = Ok ls /\
+              length ls = 3%nat) /\
+  pyramid_multi [(12, 16, 1 # 2, 1 # 4, V3 10 20 0); (6, 8, 1 # 1, 1 # 2, V3 10 20 0)]%Z [(12, 16)]%Z
+  = Ok [(12, 16, 1 # 2, 1 # 4, V3 10 20 0); (6, 8, 1 # 1, 1 # 2, V3 10 20 0)]%Z /\
+  pyramid_multi [(12, 16, 1 # 2, 1 # 4, V3 10 20 0); (6, 8, 1 # 1, 1 # 2, V3 10 20 0)]%Z [(12, 16); (6, 7)]%Z
+  = Err "ValueError"%string.
+Proof. split; [eexists; split; [vm_compute; reflexivity|reflexivity]|]. split; vm_compute; reflexivity. Qed.
+Print Assumptions C03_pyramid_multi_example.
+
+(* ---- the sub-volume IS the documented slice of the full volume -------------------- *)
+(* for ANY stored image: an accepted request whose standardised slice start is >= 0
+   (every documented request, see C03_slice_documented / C03_slice_accepted_bounds)
+   returns full[s:e, r0:r1, c0:c1] of what get_volume() returns without arguments *)
+Open Scope Z_scope.
+Theorem C03_subvolume_is_slice : forall am st ss se rs re cs ce ai sh A' out,
+  1 <= st_rows st -> 1 <= st_cols st ->
+  get_volume am st ss se rs re cs ce ai = Ok (sh, A', out) ->
+  exists G n0 full s e r0 r1 c0 c1,
+    get_volume am st None None None None None None ai = Ok ((n0, st_rows st, st_cols st), G, full) /\
+    std_slice ss se n0 ai = Ok (s, e) /\
+    std_rc rs re cs ce (st_rows st) (st_cols st) ai true = Ok (r0, r1, c0, c1) /\
+    (0 <= s ->
+       sh = (e - s, r1 - r0, c1 - c0) /\ r0 < r1 /\ c0 < c1 /\
+       out = map (fun p => map (cut c0 (c1 - c0)) (cut r0 (r1 - r0) p)) (cut s (e - s) full)).
+Proof. exact subvolume_is_slice. Qed.
+Print Assumptions C03_subvolume_is_slice.
+
+(* ---- aligned source stack WITHOUT a recorded slice spacing ------------------------- *)
+(* a complete stack p0 + m sbs n, m ranging over S >= 2 consecutive integers in ANY
+   order: the spacing the constructor infers (sorted differences, allow_missing=False
+   branch of get_volume_positions) is sbs, and the read-back - with any subset of the
+   planes stored - places every voxel where its source image put it *)
+Open Scope Q_scope.
+Theorem C03_sources_inferred : forall (p0 rowcos colcos : v3) (spr spc sbs : Q) rows cols ms m0 arr omit,
+  vdot rowcos rowcos == 1 -> vdot colcos colcos == 1 -> vdot rowcos colcos == 0 -> 0 < sbs ->
+  NoDup ms -> length ms = length arr -> (2 <= length ms)%nat ->
+  (forall m, In m ms -> (m0 <= m <= m0 + Z.of_nat (length ms) - 1)%Z) ->
+  let n := normal rowcos colcos in
+  let plane m := vadd p0 (vscale (inject_Z m * sbs) n) in
+  let st := seg_from_sources (map plane ms) rowcos colcos spr spc None rows cols arr omit in
+  let K := keep omit (combine ms arr) in
+  exists sp' mmin n0,
+    sp' == sbs /\ st_sbs st = Some sp' /\
+    In mmin (map fst K) /\
+    (forall m, In m (map fst K) -> (0 <= m - mmin < n0)%Z) /\ In (mmin + n0 - 1)%Z (map fst K) /\
+    stacked_full true st =
+    Ok (attr_aff (plane mmin) rowcos colcos spr spc sp', n0, map (fun mp => (fst mp - mmin)%Z) K) /\
+    (forall m r c : Z,
+       physZ (attr_aff (plane mmin) rowcos colcos spr spc sp') (m - mmin) r c =v=
+       vadd (vadd (plane m) (vscale (inject_Z r * spr) colcos)) (vscale (inject_Z c * spc) rowcos)).
+Proof. exact sources_inferred. Qed.
+Print Assumptions C03_sources_inferred.
+
+Example C03_sources_inferred_example :
+  let rc := V3 1 0 0 in let cc := V3 0 1 0 in
+  let plane m := vadd (V3 1 2 3) (vscale (inject_Z m * (5 # 2)) (normal rc cc)) in
+  let st := seg_from_sources (map plane [2; 0; 3; 1]%Z) rc cc (1 # 2) (1 # 4) None 1 2
+                             [[[1;0]]; [[0;0]]; [[0;1]]; [[0;0]]]%Z true in
+  (exists s, st_sbs st = Some s /\ s == 5 # 2) /\
+  (exists G, stacked_full true st = Ok (G, 2%Z, [0; 1]%Z)) /\
+  (exists A' , get_volume true st (Some 2%Z) None None None (Some (-1)%Z) None false
+               = Ok ((1, 1, 1)%Z, A', [[[1]]]%Z)).
+Proof.
+  split; [eexists; split; [vm_compute; reflexivity|reflexivity]|].
+  split; eexists; vm_compute; reflexivity.
+Qed.
+Print Assumptions C03_sources_inferred_example.
+
+(* ---- the strict read-back (allow_missing_positions = False, the default of the plain
+   Image interface) on a COMPLETE stack ------------------------------------------------ *)
+(* planes p0 + m sp n with m ranging over S >= 2 consecutive integers in any order, slice
+   spacing absent or recorded: accepted, S slices, plane m at the rank-based index m - m0,
+   origin at plane m0, spacing (Qeq) sp - the strict branch agrees with the gap-tolerant one *)
+Theorem C03_stack_complete_strict : forall (rowcos colcos p0 : v3) (sp : Q),
+  vdot (normal rowcos colcos) (normal rowcos colcos) == 1 -> 0 < sp ->
+  forall (st : stored) (ms : list Z) (m0 : Z),
+  st_rowcos st = rowcos -> st_colcos st = colcos ->
+  (st_sbs st = None \/ exists h, st_sbs st = Some h /\ h == sp) ->
+  Forall2 (on_line (normal rowcos colcos) p0 sp) (map fst (st_planes st)) ms -> NoDup ms ->
+  (2 <= length ms)%nat ->
+  (forall m, In m ms -> (m0 <= m <= m0 + Z.of_nat (length ms) - 1)%Z) ->
+  exists origin sp',
+    sp' == sp /\ In origin (map fst (st_planes st)) /\ on_line (normal rowcos colcos) p0 sp origin m0 /\
+    stacked_full false st =
+    Ok (attr_aff origin rowcos colcos (st_spr st) (st_spc st) sp', Z.of_nat (length ms),
+        map (fun m => (m - m0)%Z) ms).
+Proof. exact stacked_complete. Qed.
+Print Assumptions C03_stack_complete_strict.
+
+Theorem C03_volume_stacked_strict : forall (pos d0 d1 d2 : v3) (s0 s1 s2 : Q) (sg : Z),
+  (sg = 1 \/ sg = -1)%Z -> vdot d1 d1 == 1 -> vdot d2 d2 == 1 -> vdot d1 d2 == 0 ->
+  d0 =v= vscale (inject_Z sg) (vcross d1 d2) -> 0 < s0 ->
+  forall rows cols arr, (2 <= length arr)%nat ->
+  let A := vol_aff pos d0 d1 d2 s0 s1 s2 in
+  let st := seg_from_volume pos d0 d1 d2 s0 s1 s2 rows cols arr false in
+  let S := Z.of_nat (length arr) in
+  let j := (if sg =? 1 then 0 else S - 1)%Z in
+  exists sp',
+    sp' == s0 /\
+    stacked_full false st =
+    Ok (attr_aff (physZ A j 0 0) d2 d1 s1 s2 sp', S,
+        map (fun i => (sg * (i - j))%Z) (zrange_from 0 (length arr))) /\
+    (forall i r c : Z,
+       physZ (attr_aff (physZ A j 0 0) d2 d1 s1 s2 sp') (sg * (i - j)) r c =v= physZ A i r c).
+Proof. exact volume_stacked_strict. Qed.
+Print Assumptions C03_volume_stacked_strict.
+
+Example C03_strict_example :
+  exists G, stacked_full false (seg_from_volume (V3 (1 # 2) (-3) 7) ex_d0 ex_d1 ex_d2 (5 # 2) (1 # 2) (3 # 4) 2 2 ex_arr false)
+            = Ok (G, 3%Z, [2; 1; 0]%Z).
+Proof. eexists. vm_compute. reflexivity. Qed.
+Print Assumptions C03_strict_example.
+
+(* ---- placed tiled segmentation, end to end through get_volume --------------------- *)
+(* any accepted get_volume request on the image the constructor produced returns the
+   requested region of the mask and puts its voxel (0, i, j) where the CALLER's affine
+   (any stacking direction d0 / slice spacing s0) put mask pixel (r0 + i, c0 + j) *)
+Theorem C03_placed_get_volume :
+  forall src_org usr_org npos rp cp o_given src_rc src_cc u_rc u_cc m_given
+         src_spr src_spc u_spr u_spc srcR srcC MR MC src_th src_tw th tw o,
+  placed_origin src_org usr_org npos rp cp o_given src_rc src_cc u_rc u_cc m_given
+                src_spr src_spc u_spr u_spc srcR srcC MR MC src_th src_tw th tw = Ok o ->
+  forall rowcos colcos spr spc sbs M ss se rs re cs ce ai sh A' arr,
+  get_volume_tiled (tiled_geometry o rowcos colcos spr spc sbs) MR MC M ss se rs re cs ce ai = Ok (sh, A', arr) ->
+  exists r0 r1 c0 c1,
+    std_rc rs re cs ce MR MC ai true = Ok (r0, r1, c0, c1) /\
+    (0 <= r0 < r1)%Z /\ (0 <= c0 < c1)%Z /\ sh = (1, r1 - r0, c1 - c0)%Z /\
+    arr = [map (cut c0 (c1 - c0)) (cut r0 (r1 - r0) M)] /\
+    forall d0 s0 (i j : Z),
+      physZ A' 0 i j =v= physZ (vol_aff usr_org d0 colcos rowcos s0 spr spc) 0 (r0 + i) (c0 + j).
+Proof. exact placed_get_volume. Qed.
+Print Assumptions C03_placed_get_volume.
+
+(* every non-empty tile of the mask is stored (every tile when nothing is omitted) *)
+Theorem C03_tile_frames_complete : forall org rowcos colcos spr spc MR MC th tw M omit r0 c0,
+  In r0 (tile_starts MR th) -> In c0 (tile_starts MC tw) ->
+  (omit = false \/ tile_nonempty M th tw (r0, c0) = true) ->
+  In ((r0 + 1)%Z, (c0 + 1)%Z, tile_pos org rowcos colcos spr spc r0 c0)
+     (tile_frames org rowcos colcos spr spc MR MC th tw M omit).
+Proof. exact tile_frames_complete. Qed.
+Print Assumptions C03_tile_frames_complete.
